@@ -16,6 +16,21 @@ def run(tier, argv):
     for mod, label in (("GenTypes", "types"), ("GenRules", "rules"), ("GenShape", "shape"), ("GenExample", "example")):
         docs, cases, nd, nc = semcommon.generate(work, rep, mod, mod + ".cfg", lvl, label)
         files.append(cases)
+    # the type-graph families of C09 (optional recursion through one, two and three types, arrays, or-alternatives): Example of every accepted graph
+    for gl, consts in ((("g1", {"NTypes": "2", "Level": "1"}),) if quick else (("g1", {"NTypes": "3", "Level": "1"}), ("g2", {"NTypes": "2", "Level": "2"}))):
+        raw = work.path("gen-%s.txt" % gl)
+        r = vlib.tlc(work, "GenGraph", "GenGraph.cfg", consts=consts, to_file=raw, timeout=6000, heap="16g")
+        rep.add_tlc(r, "GenGraph %s" % consts)
+        cases = work.path("cases-%s.ndjson" % gl)
+        k = 0
+        with open(cases, "w") as f:
+            for l in vlib.tagged_file(raw, "@@CASE"):
+                if json.loads(l)["want"] == "accept":
+                    f.write(l + "\n")
+                    k += 1
+        if k == 0:
+            raise vlib.Infra("GenGraph gave no accepted graph")
+        files.append(cases)
     tr = work.path("trace.ndjson")
     p = vlib.run_harness(hbin, ["c15trace", "-cases", ",".join(files), "-out", tr], timeout=3000)
     if p.returncode != 0:
@@ -33,6 +48,10 @@ def run(tier, argv):
         e = lines[m["line"] - 1]
         bad.append({"what": m["what"], "schema": e["text"], "out": e.get("out"), "error": e.get("error"), "abstract": e["schema"], "env": e["env"]})
     for e in lines:
+        # the statement's literal wording: Validate on the same schema accepts the example (two key shortcuts in one schema may overlap:
+        # which of them a key then belongs to is left open, see Sem!KeyMatches)
+        if e.get("parsed") and e.get("self_ok") is False and json.dumps(e["schema"]).count('"sc": true') < 2:
+            bad.append({"what": "rejected-by-its-own-Validate", "schema": e["text"], "out": e.get("out"), "error": None, "abstract": e["schema"], "env": e["env"]})
         if e.get("error"):
             bad.append({"what": "error", "schema": e["text"], "out": None, "error": e["error"], "abstract": e["schema"], "env": e["env"]})
     for e in lines[:: max(1, len(lines) // 6)]:
@@ -40,7 +59,7 @@ def run(tier, argv):
     rep.cov["evaluations"] = len(lines)
     rep.cov["distinct_nontrivial"] = len(lines)
     rep.cov["traces_validated_against_impl"] = len(lines)
-    rep.cov["rule"] = ("Example() of every Check-accepted schema of the GenTypes / GenRules / GenShape / GenExample domains; TLC runs the RFC 8259 "
+    rep.cov["rule"] = ("Example() of every Check-accepted schema of the GenTypes / GenRules / GenShape / GenExample domains and of every accepted type graph of the GenGraph family; TLC runs the RFC 8259 "
                        "recogniser over the returned bytes, Sem!Verdict on the parsed value, and for plain-JSON schemas equality with the example and absence of blanks")
     return rep, bad
 
